@@ -7,6 +7,7 @@ import (
 	"fmt"
 	"io"
 	"os"
+	"strings"
 	"testing"
 	"testing/iotest"
 
@@ -33,6 +34,7 @@ type CaseC18 struct {
 	ErrKind     int     `json:"err_kind"`                // error the failing reader returns: 0 plain, 1 timeout-like (Timeout() true), 2 os.ErrDeadlineExceeded, 3 io.ErrNoProgress, 4 wraps io.EOF, 5 wraps io.ErrUnexpectedEOF, 6 io.ErrUnexpectedEOF itself, 7 temporary but not a timeout (EINTR-like)
 	Reader      int     `json:"reader"`                  // 0 bytes.Reader 1 bufio 2 one-byte 3 half 4 data-with-EOF 5 chunks
 	Chunks      []int   `json:"chunks"`                  // for reader kind 5; a chunk of 0 is a Read that returns (0, nil) once, which io.Reader allows
+	LimitExtra  int     `json:"limit_extra,omitempty"`   // for reader kind 7: how far the io.LimitedReader's limit lies beyond the end of the contents
 	BufSize     int     `json:"buf_size,omitempty"`      // for reader kind 1 (0 = 4096): bufio buffers smaller than a packet too
 	ReadFail    int     `json:"read_fail"`               // reader fails with its own error after this many bytes, -1 = never
 	ViaCopy     bool    `json:"via_copy"`                // drive ReadFrom through io.Copy
@@ -56,7 +58,15 @@ func genC18(t *rapid.T) CaseC18 {
 	c.ErrKind = rapid.IntRange(0, 7).Draw(t, "err-kind")
 	c.ErrWithData = rapid.IntRange(0, 2).Draw(t, "err-with-data") == 0
 	c.ErrOnce = rapid.Bool().Draw(t, "err-once")
-	c.Reader = rapid.SampledFrom([]int{0, 1, 2, 3, 4, 5, 5, 5, 6}).Draw(t, "reader") // 6 = a regular file
+	// 6 = a regular file; 7..12 = the standard library's other readers (a LimitedReader with its limit behind / at the end of
+	// the contents, bytes.Buffer, strings.Reader, SectionReader, MultiReader): "any reader"
+	c.Reader = rapid.SampledFrom([]int{0, 1, 2, 3, 4, 5, 5, 5, 6, 7, 7, 8, 9, 10, 11, 12}).Draw(t, "reader")
+	if c.Reader == 7 {
+		c.LimitExtra = rapid.SampledFrom([]int{0, 1, 94, 187, 188, 189, 1000, 1 << 40}).Draw(t, "limit-extra")
+	}
+	if c.Reader == 12 {
+		c.Chunks = rapid.SliceOfN(rapid.IntRange(1, 400), 1, 6).Draw(t, "multi-chunks")
+	}
 	if c.Reader == 5 {
 		c.Chunks = rapid.SliceOfN(rapid.IntRange(1, 400), 1, 6).Draw(t, "chunks")
 		if rapid.IntRange(0, 3).Draw(t, "empty-read") == 0 {
@@ -334,6 +344,34 @@ func checkC18(c CaseC18, x *hx.Ctx) (fail *hx.Failure) {
 			return hx.Failf("harness-tempfile", "cannot rewind the scratch file: %v", serr)
 		}
 		r = f
+	case 7:
+		// the limit lies behind the end of the contents (by a whole number of packets or not): the stream is what it is
+		r = &io.LimitedReader{R: base, N: int64(len(data)) + int64(c.LimitExtra)}
+	case 8:
+		// the limit IS the end of the stream: more bytes lie behind it in the underlying reader
+		r = io.LimitReader(bytes.NewReader(append(clone(data), bytes.Repeat([]byte{0x47, 0x1F, 0xFF, 0x10}, 100)...)), int64(len(data)))
+	case 9:
+		r = bytes.NewBuffer(clone(data))
+	case 10:
+		r = strings.NewReader(string(data))
+	case 11:
+		junk := bytes.Repeat([]byte{0x47, 0x00, 0x11, 0x10, 0xAA}, 40)
+		r = io.NewSectionReader(bytes.NewReader(append(append(clone(junk), data...), junk...)), int64(len(junk)), int64(len(data)))
+	case 12:
+		var parts []io.Reader
+		rest := clone(data)
+		for i := 0; len(rest) > 0; i++ {
+			n := 188
+			if len(c.Chunks) > 0 {
+				n = c.Chunks[i%len(c.Chunks)]
+			}
+			if n <= 0 || n > len(rest) {
+				n = len(rest)
+			}
+			parts = append(parts, bytes.NewReader(rest[:n]))
+			rest = rest[n:]
+		}
+		r = io.MultiReader(parts...)
 	default:
 		r = &fragReader{data: clone(data), chunks: c.Chunks, failAfter: -1}
 	}
@@ -359,7 +397,7 @@ func checkC18(c CaseC18, x *hx.Ctx) (fail *hx.Failure) {
 		wantDelivered = c.FailAt + 1
 	}
 	if f := c18Delivered(sink, data, wantDelivered, "readfrom"); f != nil {
-		f.Msg += " (reader kind " + []string{"bytes.Reader", "bufio", "one-byte", "half", "data-with-EOF", "chunks", "regular file"}[c.Reader] + ")"
+		f.Msg += " (reader kind " + []string{"bytes.Reader", "bufio", "one-byte", "half", "data-with-EOF", "chunks", "regular file", "io.LimitedReader, limit behind the end", "io.LimitedReader, limit at the end", "bytes.Buffer", "strings.Reader", "io.SectionReader", "io.MultiReader"}[c.Reader] + ")"
 		return f
 	}
 	if c.Again {
@@ -429,7 +467,7 @@ func checkC18(c CaseC18, x *hx.Ctx) (fail *hx.Failure) {
 var propC18 = hx.Register(hx.Prop[CaseC18]{ID: "C18", Gen: genC18, Check: checkC18})
 
 func c18Rule() {
-	hx.Rec("C18").SetRule("cases: 0..12 packets of deterministic contents (+ 0..187 extra bytes), a packet-writer mock that records a copy of every packet and fails at a drawn index with a drawn count, the four adapter constructions plus two over a packet writer whose type also has its own Write method, and for ReadFrom the same contents through bytes.Reader, bufio.Reader (buffer sizes 16..65536, also smaller than a packet), one-byte reader, half reader, data-with-EOF reader, a regular file, drawn chunk sizes 1..400 (optionally with a Read that returns (0, nil) in between), and a reader that fails after k bytes with a plain, timeout-like, os.ErrDeadlineExceeded, io.ErrNoProgress or EOF-wrapping error reported with or after the last bytes, once or for good (followed by a second ReadFrom on the same adapter); ReadFrom driven directly or through io.Copy. Oracle: the sequence of packets seen by the mock, returned count and error, per the statement. Enumerated: every (packet count 0..6, partial tail in {0,1,94,187}, reader kind, failing position) combination. Non-trivial: a fragmenting reader (not one packet per Read) or a failure position strictly inside the sequence.",
+	hx.Rec("C18").SetRule("cases: 0..12 packets of deterministic contents (+ 0..187 extra bytes), a packet-writer mock that records a copy of every packet and fails at a drawn index with a drawn count, the four adapter constructions plus two over a packet writer whose type also has its own Write method, and for ReadFrom the same contents through bytes.Reader, bufio.Reader (buffer sizes 16..65536, also smaller than a packet), one-byte reader, half reader, data-with-EOF reader, a regular file, io.LimitedReader (limit behind or at the end of the contents), bytes.Buffer, strings.Reader, io.SectionReader, io.MultiReader, drawn chunk sizes 1..400 (optionally with a Read that returns (0, nil) in between), and a reader that fails after k bytes with a plain, timeout-like, os.ErrDeadlineExceeded, io.ErrNoProgress or EOF-wrapping error reported with or after the last bytes, once or for good (followed by a second ReadFrom on the same adapter); ReadFrom driven directly or through io.Copy. Oracle: the sequence of packets seen by the mock, returned count and error, per the statement. Enumerated: every (packet count 0..6, partial tail in {0,1,94,187}, reader kind, failing position) combination. Non-trivial: a fragmenting reader (not one packet per Read) or a failure position strictly inside the sequence.",
 		"the packet-writer mock returns 188 on success (the io.Writer-style contract the adapter documents)")
 }
 
@@ -446,13 +484,13 @@ func TestC18Exhaustive(t *testing.T) {
 	}
 	for pk := 0; pk <= 6; pk++ {
 		for _, extra := range []int{0, 1, 94, 187} {
-			for reader := 0; reader <= 5; reader++ {
+			for _, reader := range []int{0, 1, 2, 3, 4, 5, 7, 8, 9, 10, 11, 12} {
 				for failAt := -1; failAt < pk; failAt++ {
 					for _, readFail := range []int{-1, 0, 100, 188, 400} {
 						if readFail > pk*188+extra {
 							continue
 						}
-						c := CaseC18{Packets: pk, Extra: extra, Seed: 0x5c, FailAt: failAt, FailN: 0, Ctor: (pk + reader) % 4, Reader: reader, Chunks: []int{100, 7, 300}, ReadFail: readFail, ViaCopy: (pk+extra)%2 == 0}
+						c := CaseC18{Packets: pk, Extra: extra, Seed: 0x5c, FailAt: failAt, FailN: 0, Ctor: (pk + reader) % 4, Reader: reader, Chunks: []int{100, 7, 300}, LimitExtra: (pk * 31) % 189, ReadFail: readFail, ViaCopy: (pk+extra)%2 == 0}
 						if f := propC18.EvalFast(c, hx.HashInts(uint64(pk), uint64(extra), uint64(reader), uint64(failAt+1), uint64(readFail+1))); f != nil {
 							t.Fatalf("VIOLATION-CANDIDATE property=C18 key=%s: %s", f.Key, f.Msg)
 						}
@@ -461,7 +499,7 @@ func TestC18Exhaustive(t *testing.T) {
 			}
 		}
 	}
-	hx.Rec("C18").Subspace("packets 0..6 x partial tail {0,1,94,187} x 6 reader kinds x every failing packet-write position (or none) x reader failure after {never,0,100,188,400} bytes")
+	hx.Rec("C18").Subspace("packets 0..6 x partial tail {0,1,94,187} x 12 reader kinds x every failing packet-write position (or none) x reader failure after {never,0,100,188,400} bytes")
 }
 
 func FuzzC18(f *testing.F) {
